@@ -89,6 +89,8 @@ func parseLimited(grammar, entry, text string, limit int) (tree string, ok bool,
 	var doc *ast.SchemaDocument
 	var err error
 	switch {
+	case limit == unlimitedEntry && entry == "ParseSchemasWithLimit":
+		doc, err = parser.ParseSchemas(src) // the unlimited counterpart of the entry point for lists of sources
 	case limit == unlimitedEntry:
 		doc, err = parser.ParseSchema(src)
 	case entry == "ParseSchemasWithLimit":
@@ -105,6 +107,14 @@ func parseLimited(grammar, entry, text string, limit int) (tree string, ok bool,
 // builtInMarks: which definitions and extensions of the document are marked built-in
 func builtInMarks(d *ast.SchemaDocument) string {
 	var b strings.Builder
+	// what the document itself carries: its end-of-file comments (and whether it has a position) are part of the
+	// tree a limited parse must reproduce
+	fmt.Fprintf(&b, " document: position=%v comments=", d.Position != nil)
+	if d.Comment != nil {
+		for _, cm := range d.Comment.List {
+			fmt.Fprintf(&b, "%q ", cm.Value)
+		}
+	}
 	b.WriteString(" builtin:")
 	for _, x := range d.Definitions {
 		fmt.Fprintf(&b, " %s=%v", x.Name, x.BuiltIn)
@@ -357,7 +367,12 @@ func checkC16(c *core.Ctx) {
 		}
 		for _, entry := range entries {
 			for limit := -2; limit <= n+2; limit++ { // (a negative limit is a limit no input fits)
-				lc := &limitCase{Grammar: grammar, Entry: entry, Limit: limit, N: n, HasSrc: true, Src: cps(text), OK0: ok0, Tree0: tree0, Text: text, Srcs: [][]int{}}
+				t0 := tree0
+				if entry == "ParseSchemasWithLimit" && ok0 {
+					// (a document built from a list of sources carries neither position nor end-of-file comments)
+					t0, _, _, _ = parseLimited(grammar, entry, text, unlimitedEntry)
+				}
+				lc := &limitCase{Grammar: grammar, Entry: entry, Limit: limit, N: n, HasSrc: true, Src: cps(text), OK0: ok0, Tree0: t0, Text: text, Srcs: [][]int{}}
 				var crash string
 				lc.Events = captureEvents(func() {
 					lc.Tree, lc.OK, lc.ErrText, crash = parseLimited(grammar, entry, text, limit)
@@ -434,6 +449,9 @@ func checkC16(c *core.Ctx) {
 			entries = []string{"ParseSchemaWithLimit", "ParseSchemasWithLimit"}
 		}
 		for _, entry := range entries {
+			if entry == "ParseSchemasWithLimit" {
+				tree0, _, _, _ = parseLimited(mid.grammar, entry, mid.text, unlimitedEntry)
+			}
 			for _, limit := range []int{0, 15000, 20001, 20002, 20003} {
 				lc := &limitCase{Grammar: mid.grammar, Entry: entry, Limit: limit, N: 20002, HasSrc: false, Src: []int{}, OK0: true, Tree0: tree0, Text: fmt.Sprintf("(%s document of 20,002 tokens)", mid.grammar), Srcs: [][]int{}}
 				var crash string
